@@ -380,7 +380,8 @@ def merge_structure(P, rep, rule="MERGE"):
     # match loop
     loops = [x for x in F.walk() if x.get("k") == "ForStmt" and "coordinate_pair_i" in R(x["c"][1])]
     if len(loops) != 1:
-        problems.append("match loop over coordinate pairs not found")
+        rep.unknown(rule, "Parameters::get(name, points): the search for an existing point is not the `for (coordinate_pair_i ...; += 2)` loop this rule is written over")
+        return
     else:
         L = loops[0]
         if R(L["c"][1]) != "(coordinate_pair_i<result.second.size())" or R(L["c"][2]) not in ("(coordinate_pair_i+=2)",):
